@@ -333,6 +333,28 @@ def r_listsib(E):
                 f"model ends up holding a list that differs from what the Python operation produces", rel, fn.lineno, where))
         elif len(res.samples) < 5:
             res.samples.append({"mutator": where, "shadow": shadow, "real": real, "verdict": "same operation"})
+    # the copy that stands for the previous list in the update (`return_copy_with_same_attributes()`) inherits the
+    # receiver's flags: taken after `self.trigger_modeling_updates = False`, it is a list that never propagates anything —
+    # and it is that copy the rollback puts back into the model when the update fails
+    from ..astutil import source_order as _so_ls
+    for m, fn in sorted(ms.items()):
+        copies = [c_ for c_ in _calls(fn) if isinstance(c_.func, ast.Attribute) and c_.func.attr == "return_copy_with_same_attributes"
+                  and norm(c_.func.value) == "self"]
+        if not copies:
+            continue
+        res.instances += 1
+        rank = _so_ls(fn)
+        offs = [a_ for a_ in ast.walk(fn) if isinstance(a_, ast.Assign) and any(norm(t_) == "self.trigger_modeling_updates" for t_ in a_.targets)
+                and isinstance(a_.value, ast.Constant) and a_.value.value is False]
+        first_copy = min(rank.get(id(c_), 10 ** 9) for c_ in copies)
+        early = [a_ for a_ in offs if rank.get(id(a_), 10 ** 9) < first_copy]
+        if early:
+            res.findings.append(Finding(
+                "R-LISTSIB", f"{W}.{m} switches its updates off before copying itself",
+                f"{W}.{m} sets `self.trigger_modeling_updates = False` before it takes `self.return_copy_with_same_attributes()` "
+                f"for the ModelingUpdate: the copy that stands for the previous list carries the flag, and when the update "
+                f"fails the rollback installs that copy — a list of the model whose later in-place edits recompute nothing",
+                rel, early[0].lineno, f"{W}.{m}"))
     # in every method of the class (the mutators, the helper they may share): the receiver leaves its container only once
     # the ModelingUpdate that can still refuse the change has gone through — detached first, a refused change leaves a
     # model whose list no longer knows its container
